@@ -149,6 +149,10 @@ func TestC16_hooks(t *testing.T) {
 				c16HooksRun(rt, r, cs, e.m.c, nil)
 			case "liquidity":
 				lc := &lCase{Cfg: genLCfg(rt)}
+				for i := range lc.Cfg.Apps {
+					// a fee-distribution token among the traded ones: the conversion of collected swap fees (every 150th block) has work to do
+					lc.Cfg.Apps[i].DistrDenom = rapid.SampledFrom([]string{"", "uaaa", "ubbb", "uccc"}).Draw(rt, fmt.Sprintf("distrdenom%d", i))
+				}
 				cs.L = lc
 				m := newLMachine(rt, r, "C16", lc)
 				n := rapid.IntRange(10, 45).Draw(rt, "nops")
